@@ -782,6 +782,12 @@ class HashableTerm:
         return hash(self.term)
 
 
+# conditions whose z3 ids have been exported as assertion names by Path.to_smt2().
+# they are kept alive for the rest of the process: z3 gives the id of a reclaimed term to the next
+# new term, and the unsat-core cache (see solve.check_unsat_cores) knows a condition by its id only.
+_named_conditions: dict[int, BoolRef] = {}
+
+
 class Path:
     """
     A Path object represents a prefix of the path currently being executed, where a path is defined by a sequence of branching conditions.
@@ -898,6 +904,7 @@ class Path:
         for cond in self.conditions:
             cond_copied = cond.translate(tmp_solver.ctx)
             if args.cache_solver:
+                _named_conditions[cond.get_id()] = cond
                 tmp_solver.assert_and_track(cond_copied, str(cond.get_id()))
             else:
                 tmp_solver.add(cond_copied)
